@@ -3,6 +3,7 @@ package main
 import (
 	"fmt"
 	"os"
+	"path/filepath"
 	"sort"
 	"strings"
 	"time"
@@ -51,15 +52,15 @@ var aclTemplates = []string{
 var aclExempt = map[string]bool{"auth": true, "hello": true, "ping": true, "echo": true}
 
 type aclRules struct {
-	Enabled                bool
-	AllCats                bool
-	InclCats, ExclCats     []string
-	AllCmds                bool
-	InclCmds, ExclCmds     []string
-	NoKeys                 bool
-	ReadGlobs, WriteGlobs  []string // empty (and !NoKeys) = every key
-	AllChans               bool
-	InclChans, ExclChans   []string
+	Enabled               bool
+	AllCats               bool
+	InclCats, ExclCats    []string
+	AllCmds               bool
+	InclCmds, ExclCmds    []string
+	NoKeys                bool
+	ReadGlobs, WriteGlobs []string // empty (and !NoKeys) = every key
+	AllChans              bool
+	InclChans, ExclChans  []string
 }
 
 func (u aclRules) tokens() []string {
@@ -278,7 +279,7 @@ func aclPopulate(in *Inst) {
 
 func checkC06(ctx *Ctx) {
 	ctx.Rule("one evaluation = one authorization decision: a command instance (every registered command and subcommand, with every assignment of permitted/forbidden keys and channels to its key positions, taken from the harness's own declarative key table) " +
-		"sent over TCP by a connection in a given authentication state (fresh, failed AUTH, authenticated, authenticated then disabled / restricted / deleted) as a user with a given rule set; " +
+		"sent over TCP by a connection in a given authentication state (fresh, failed AUTH, authenticated, authenticated then disabled / restricted / deleted through ACL SETUSER/DELUSER, authenticated then given tighter rules through ACL SAVE + ACL LOAD REPLACE) as a user with a given rule set; " +
 		"whenever the declarative evaluator written from the documentation says DENIED, the reply must be an error and the dataset, the ACL listing and the pub/sub table must be unchanged. " +
 		"Commands the real gate denies although the evaluator allows them are counted as over-restriction, not as violations. distinct_nontrivial = distinct (command, denial reason class, authentication state) decided")
 	ctx.Assume("the server requires authentication (RequirePass) in every instance of this check", "rule sets are given to ACL SETUSER in documented, unambiguous spellings; how SETUSER parses other spellings is C11's")
@@ -287,7 +288,10 @@ func checkC06(ctx *Ctx) {
 	}
 	quietLogs()
 	port := freePort()
-	in, err := NewInst(InstOpts{Extra: append(withTCP(port), sugardb.WithRequirePass(true), sugardb.WithPassword("adminpw"))})
+	aclRoot := mkScratch("c06")
+	defer os.RemoveAll(aclRoot)
+	in, err := NewInst(InstOpts{Extra: append(withTCP(port), sugardb.WithRequirePass(true), sugardb.WithPassword("adminpw"),
+		sugardb.WithAclConfig(filepath.Join(aclRoot, "acl.json")))})
 	if err != nil {
 		ctx.Broken(err.Error())
 		return
@@ -372,6 +376,15 @@ func checkC06(ctx *Ctx) {
 	}
 	base := aclRules{Enabled: true, AllCats: true, AllCmds: true, AllChans: true}
 	cfgs = append(cfgs, cfg{base, "fresh"}, cfg{base, "failed-auth"}, cfg{base, "then-disabled"}, cfg{base, "then-restricted"}, cfg{base, "then-deleted"})
+	// rules replaced through the ACL file (ACL SAVE of the tighter rules, then ACL LOAD REPLACE) after the connection authenticated
+	for _, k := range []int{1, 2} {
+		if k < len(keySets) {
+			ks := keySets[k]
+			cfgs = append(cfgs, cfg{aclRules{Enabled: true, AllCmds: true, InclCats: []string{"read"}, NoKeys: ks.NoKeys, ReadGlobs: ks.ReadGlobs, WriteGlobs: ks.WriteGlobs, AllChans: true}, "then-load-replace"})
+		}
+	}
+	cfgs = append(cfgs, cfg{aclRules{Enabled: true, AllCats: true, AllCmds: true, ExclCats: []string{"write"}, ExclCmds: []string{"get"}, AllChans: true}, "then-load-replace"},
+		cfg{aclRules{Enabled: false, AllCats: true, AllCmds: true, AllChans: true}, "then-load-replace"})
 	nCfg := 0
 	for i, cf := range cfgs {
 		if !ctx.Mine(i) {
@@ -504,6 +517,19 @@ func c06Config(ctx *Ctx, in *Inst, port int, admin *Client, u aclRules, state st
 	if state == "then-disabled" || state == "then-restricted" || state == "then-deleted" {
 		create = aclRules{Enabled: true, AllCats: true, AllCmds: true, AllChans: true}
 	}
+	if state == "then-load-replace" {
+		// the target rules go into the ACL file first; the connection authenticates as a permissive u1 afterwards
+		if v, _, err := admin.Do(append([]string{"ACL", "SETUSER", "u1"}, u.tokens()...)...); err != nil || v.IsError() {
+			ctx.Broken(fmt.Sprintf("ACL SETUSER %v failed: %v %s", u.tokens(), err, v.String()))
+			return false
+		}
+		if v, _, err := admin.Do("ACL", "SAVE"); err != nil || v.IsError() {
+			ctx.Broken(fmt.Sprintf("ACL SAVE failed: %v %s", err, v.String()))
+			return false
+		}
+		admin.Do("ACL", "DELUSER", "u1")
+		create = aclRules{Enabled: true, AllCats: true, AllCmds: true, AllChans: true}
+	}
 	if v, _, err := admin.Do(append([]string{"ACL", "SETUSER", "u1"}, create.tokens()...)...); err != nil || v.IsError() {
 		ctx.Broken(fmt.Sprintf("ACL SETUSER %v failed: %v %s", create.tokens(), err, v.String()))
 		return false
@@ -536,6 +562,12 @@ func c06Config(ctx *Ctx, in *Inst, port int, admin *Client, u aclRules, state st
 			authenticated = true
 		}
 		switch state {
+		case "then-load-replace":
+			if v, _, err := admin.Do("ACL", "LOAD", "REPLACE"); err != nil || v.IsError() {
+				ctx.Broken(fmt.Sprintf("ACL LOAD REPLACE failed: %v %s", err, v.String()))
+				return false
+			}
+			// the file's rules for u1 are in force now (effective = u)
 		case "then-disabled":
 			admin.Do("ACL", "SETUSER", "u1", "off")
 			effective.Enabled = false
@@ -554,7 +586,7 @@ func c06Config(ctx *Ctx, in *Inst, port int, admin *Client, u aclRules, state st
 	denied, over := 0, 0
 	for _, cmd := range cmds {
 		reason := policyDenies(effective, authenticated, cmd)
-		v, _, err := c.Do(cmd.Argv...)
+		v, err := c06Exchange(c, cmd.Argv)
 		ctx.Eval(1)
 		gone := err != nil
 		if gone {
@@ -578,13 +610,8 @@ func c06Config(ctx *Ctx, in *Inst, port int, admin *Client, u aclRules, state st
 			}
 			// subscriptions made by an allowed SUBSCRIBE are withdrawn again
 			if cmd.Name == "subscribe" || cmd.Name == "psubscribe" {
-				c.Drain(2 * time.Millisecond)
-				c.Send(resp.Encode(strings.ToUpper("un"+cmd.Name[0:])))
-				c.Read(2 * time.Second)
-				if cmd.Name == "psubscribe" {
-					c.Send(resp.Encode("PUNSUBSCRIBE"))
-					c.Read(2 * time.Second)
-				}
+				_, _ = c06Exchange(c, []string{"UNSUBSCRIBE"})
+				_, _ = c06Exchange(c, []string{"PUNSUBSCRIBE"})
 			}
 			continue
 		}
@@ -616,4 +643,32 @@ func c06Config(ctx *Ctx, in *Inst, port int, admin *Client, u aclRules, state st
 	}
 	_ = os.Getpid
 	return true
+}
+
+// c06Exchange sends one command followed by a PING (which no ACL rule restricts) and takes the first
+// frame as the command's reply; every further frame up to the PONG (extra subscription confirmations,
+// messages the connection published to itself) is discarded, so that the stream stays aligned whatever
+// the command pushes. No timing is involved.
+func c06Exchange(c *Client, argv []string) (resp.Value, error) {
+	if err := c.Send(append(resp.Encode(argv...), resp.Encode("PING")...)); err != nil {
+		return resp.Value{}, err
+	}
+	first, _, err := c.Read(10 * time.Second)
+	if err != nil {
+		return first, err
+	}
+	isPong := func(v resp.Value) bool {
+		t, ok := v.Text()
+		return ok && t == "PONG" && !v.IsError() && !v.IsSeq()
+	}
+	for i := 0; i < 256; i++ {
+		v, _, err := c.Read(10 * time.Second)
+		if err != nil {
+			return first, err
+		}
+		if isPong(v) {
+			return first, nil
+		}
+	}
+	return first, fmt.Errorf("no PONG after 256 frames")
 }
